@@ -1,5 +1,359 @@
 import OasisModel.Proto
-/- C14 elections: driver stub (not built yet). -/
+import OasisModel.Scheduler.Elect
+import OasisModel.Scheduler.Spec
+/-
+Driver for the election model (mode `elect`, executable `om_elect`), property C14.
+
+State-building lines (answer `ok`):
+  reset                                   forget everything
+  begin                                   forget registry/staking/shuffle inputs, keep the current validator set
+  strict <0|1>                            spec uses the configured MaxValidators itself (1) or max(MaxValidators,1) (0)
+  params <minV> <maxV> <maxPerEntity> <bypassStake> <dist> <useVRF> <canElect> <weakAlpha> <fv261>
+  epoch <e>
+  thr <kind> <value>                      global stake threshold
+  acct <addr> <escrow> <claims>           claims: `-` | claim;claim;…   claim: `e` | t,t,…   t: g<kind> | c<value> | m
+  node <id> <entity> <consensus> <roles> <expiration> <freezeEnd> <eligibleAfter> <hasPi> <faults> <runtimes>
+                                          faults: `-` | rt:until,…    runtimes: `-` | rt:version:hasTee:teeHw:teeOk,…
+  rt <id> <isCompute> <groupSize> <backupSize> <teeHw> <deployments> <csWorker> <csBackup>
+                                          deployments: `-` | validFrom:version,…   cs: <validatorSet>:<maxNodes|n>:<minPool|n>
+  perm <which> <n> <indices>              what the real DRBG returned for an input of length n
+                                          which: E (entities) | V (validators) | C<rt>w | C<rt>b (committee roles)
+  beta <which> <node> <key>               real hashed VRF beta of a node; which: V | D<rt>w | D<rt>b | C<rt>w | C<rt>b
+Checking lines (the implementation's answer is the witness; answer `ok`, `DIVERGE …` or `SPECFAIL …`):
+  validators <res>      whole-epoch validator election (top-level node filter included)
+  hvalidators <res>     `electValidators` on the node list as given
+                        res: err:power | err:none | err:insufficient | k:id:entity:power,… (sorted by k) [| visited entities]
+  committee <rt> <hadBefore> <res>  after `validators`; res: none | kept | w:<id>,…,b:<id>,…  (the stored committee)
+  hcommittee <rt> <validatorEntities> <res>   `electCommittee` on the node list as given
+  endblock <updates>    updates: `-` | k:power,… (sorted by k); pending becomes current
+  hdiff <cur> <pending> <updates>
+  hdedup <limit> <result ids>             dedupEntityNodesTrivial on the node list
+  hsort <result addrs>                    stakingAddressMapToSliceByStake on all `acct` addresses that have a node
+  hpower <stake> <dist> <power|err>
+-/
 namespace OasisModel.Scheduler.Driver
-def main : IO Unit := IO.eprintln "mode not implemented"
+open OasisModel.Proto OasisModel.Scheduler
+
+structure St where
+  p : Params := { minValidators := 1, maxValidators := 100, maxPerEntity := 1 }
+  epoch : Nat := 1
+  strict : Bool := false
+  thr : List (Nat × Nat) := []
+  accts : List (Nat × Account) := []
+  nodes : List Node := []
+  rts : List Runtime := []
+  perms : List (String × Nat × List Nat) := []
+  betas : List (String × Nat × Nat) := []
+  current : VMap := []
+  pending : Option VMap := none
+  /-- the implementation's pending validators of this epoch (for the committee spec) -/
+  implVals : VMap := []
+  modelVE : List Nat := []
+
+def St.staking (s : St) : Staking :=
+  { thresholds := fun k => (s.thr.lookup k).getD 0
+    account := fun a => (s.accts.lookup a).getD {} }
+
+def St.permFor (s : St) (which : String) (n : Nat) : List Nat :=
+  match s.perms.find? (fun e => e.1 == which && e.2.1 == n) with
+  | some e => e.2.2
+  | none => List.range n
+
+def St.betaKey (s : St) (which : String) (n : Node) : Option Nat :=
+  if !n.hasPi then none else
+  match s.betas.find? (fun e => e.1 == which && e.2.1 == n.id) with
+  | some e => some e.2.2
+  | none => none
+
+def roleTag : Role → String
+  | .worker => "w"
+  | .backup => "b"
+
+def St.shuffles (s : St) : Shuffles :=
+  { entities := permShuffle (s.permFor "E")
+    validators := fun l =>
+      -- shuffleValidators: VRF betas unless too few proofs (then the entropy fallback)
+      if s.p.useVRF && decide (s.p.minValidators ≤ ((l.countP (·.hasPi) : Nat) : Int)) then betaShuffle (s.betaKey "V") l
+      else permShuffle (s.permFor "V") l
+    dedup := fun rt role l =>
+      if s.p.useVRF then betaShuffle (s.betaKey s!"D{rt}{roleTag role}") l else l
+    committee := fun rt role l =>
+      if s.p.useVRF then betaShuffle (s.betaKey s!"C{rt}{roleTag role}") l
+      else permShuffle (s.permFor s!"C{rt}{roleTag role}") l }
+
+def St.inputs (s : St) : Inputs :=
+  { p := s.p, st := s.staking, epoch := s.epoch, all := s.nodes, runtimes := s.rts }
+
+/-! ### parsing -/
+
+def parseInt (s : String) : Option Int :=
+  if s.startsWith "-" then (s.drop 1).toNat?.map (fun n => -(n : Int)) else s.toNat?.map (fun n => (n : Int))
+
+def parseBool (s : String) : Option Bool :=
+  if s == "1" then some true else if s == "0" then some false else none
+
+def splitList (s : String) (sep : String) : List String :=
+  if s == "-" then [] else s.splitOn sep
+
+def parseThreshold (s : String) : Option Threshold :=
+  if s == "m" then some .malformed
+  else if s.startsWith "g" then (s.drop 1).toNat?.map .global
+  else if s.startsWith "c" then (s.drop 1).toNat?.map .const
+  else none
+
+def parseClaims (s : String) : Option (List (List Threshold)) :=
+  (splitList s ";").mapM (fun c => if c == "e" then some [] else (c.splitOn ",").mapM parseThreshold)
+
+def parsePairs (s : String) : Option (List (Nat × Nat)) :=
+  (splitList s ",").mapM (fun e => match e.splitOn ":" with
+    | [a, b] => do pure ((← a.toNat?), (← b.toNat?))
+    | _ => none)
+
+def parseNodeRts (s : String) : Option (List NodeRt) :=
+  (splitList s ",").mapM (fun e => match e.splitOn ":" with
+    | [a, b, c, d, f] => do
+      pure { rt := (← a.toNat?), version := (← b.toNat?), hasTee := (← parseBool c), teeHw := (← d.toNat?), teeOk := (← parseBool f) }
+    | _ => none)
+
+def parseOptNat (s : String) : Option (Option Nat) :=
+  if s == "n" then some none else s.toNat?.map some
+
+def parseCs (s : String) : Option Constraints :=
+  match s.splitOn ":" with
+  | [a, b, c] => do pure { validatorSet := (← parseBool a), maxNodes := (← parseOptNat b), minPoolSize := (← parseOptNat c) }
+  | _ => none
+
+def parseVals (s : String) : Option VMap :=
+  (splitList s ",").mapM (fun e => match e.splitOn ":" with
+    | [k, i, en, pw] => do pure ((← k.toNat?), { id := (← i.toNat?), entity := (← en.toNat?), power := (← parseInt pw) })
+    | _ => none)
+
+def parseUpdates (s : String) : Option (List Update) :=
+  (splitList s ",").mapM (fun e => match e.splitOn ":" with
+    | [k, pw] => do pure ((← k.toNat?), (← parseInt pw))
+    | _ => none)
+
+def parseMembers (s : String) : Option (List (Role × Nat)) :=
+  (splitList s ",").mapM (fun e => match e.splitOn ":" with
+    | ["w", i] => i.toNat?.map (fun i => (Role.worker, i))
+    | ["b", i] => i.toNat?.map (fun i => (Role.backup, i))
+    | _ => none)
+
+/-! ### canonical output -/
+
+def sortVals (m : VMap) : VMap := m.mergeSort (fun a b => decide (a.1 ≤ b.1))
+def sortUpdates (m : List Update) : List Update := m.mergeSort (fun a b => decide (a.1 ≤ b.1))
+
+def showVals (m : VMap) : String :=
+  if m.isEmpty then "-" else
+  ",".intercalate ((sortVals m).map fun kv => s!"{kv.1}:{kv.2.id}:{kv.2.entity}:{kv.2.power}")
+
+def showUpdates (m : List Update) : String :=
+  if m.isEmpty then "-" else ",".intercalate ((sortUpdates m).map fun u => s!"{u.1}:{u.2}")
+
+def showMembers (ms : List (Role × Nat)) : String :=
+  if ms.isEmpty then "-" else ",".intercalate (ms.map fun m => s!"{roleTag m.1}:{m.2}")
+
+def showVResult : VResult → String
+  | .powerErr => "err:power"
+  | .noValidators => "err:none"
+  | .insufficient => "err:insufficient"
+  | .ok m _ => showVals m
+
+def showCResult : CResult → String
+  | .unchanged => "unchanged"
+  | .dropped => "dropped"
+  | .elected ms => showMembers (ms.map fun m => (m.1, m.2.id))
+
+/-! ### spec evaluation on the implementation's answers, with a reason -/
+
+def whyValidators (i : Inputs) (strict : Bool) (vals : VMap) : String :=
+  if !keysDistinct vals then "validators: duplicate consensus key"
+  else if !vals.all (validatorEntryOk i) then
+    match vals.find? (fun kv => !validatorEntryOk i kv) with
+    | some kv => if i.all.any (backsValidator i kv.1 kv.2) then s!"validator {kv.1}: wrong voting power {kv.2.power}"
+                 else s!"validator {kv.1}: not backed by an eligible registered node"
+    | none => "validators: entry"
+  else if !validatorLimitsOk i.p strict vals then
+    if !decide ((vals.length : Int) ≤ maxValidatorsBound i.p strict) then s!"validators: {vals.length} elected, MaxValidators={i.p.maxValidators}"
+    else if !(decide (1 ≤ vals.length) && decide (i.p.minValidators ≤ (vals.length : Int))) then s!"validators: {vals.length} elected, MinValidators={i.p.minValidators}"
+    else "validators: per-entity limit exceeded"
+  else if !stakeOrderOk i vals then "validators: an unelected competing entity has more escrow than an elected one"
+  else ""
+
+def resolveMembers (all : List Node) (ms : List (Role × Nat)) : Option (List (Role × Node)) :=
+  ms.mapM (fun m => (all.find? (fun n => n.id == m.2)).map (fun n => (m.1, n)))
+
+def whyCommittee (i : Inputs) (ve : List Nat) (rt : Runtime) (ms : List (Role × Node)) : String :=
+  if committeeOk i ve rt ms then "" else
+  if !decide (0 < rt.groupSize) then "committee elected with GroupSize 0"
+  else if (i.p.fv261 && !rt.isCompute) then "committee elected for a non-compute runtime"
+  else if (i.p.useVRF && !i.p.canElect && !i.p.weakAlpha) then "committee elected on weak VRF alpha"
+  else
+    let bad (role : Role) : String :=
+      let l := membersOf role ms
+      if l.length != rt.size role then s!"{roleTag role}: {l.length} members, group size {rt.size role}"
+      else if !idsDistinct l then s!"{roleTag role}: node elected twice"
+      else if !roleLimitsOk rt role l then s!"{roleTag role}: per-entity MaxNodes exceeded"
+      else if !l.all (fun n => memberOk i ve rt role n.id) then
+        match l.find? (fun n => !memberOk i ve rt role n.id) with
+        | some n => s!"{roleTag role}: member {n.id} is not eligible"
+        | none => ""
+      else if !roleOk i ve rt role ms then s!"{roleTag role}: candidate pool {poolSize i ve rt role} below MinPoolSize"
+      else ""
+    let w := bad .worker
+    if w != "" then w else
+    let b := bad .backup
+    if b != "" then b else "members not listed workers-first"
+
+def whyDiff (cur pending : VMap) (us : List Update) : String :=
+  if diffOk cur pending us then "" else
+  if !updateKeysDistinct us then "updates: a key occurs twice"
+  else if !us.all (updateNeeded (toPMap cur)) then
+    match us.find? (fun u => !updateNeeded (toPMap cur) u) with
+    | some u => s!"updates: spurious update {u.1}:{u.2}"
+    | none => ""
+  else s!"updates do not turn the previous set into the pending one: got {showUpdates (applyUpdates (toPMap cur) us)} want {showUpdates (toPMap pending)}"
+
+/-! ### steps -/
+
+def verdict (spec diverge : String) : String :=
+  if spec != "" && diverge != "" then s!"SPECFAIL {spec} ;; DIVERGE {diverge}"
+  else if spec != "" then s!"SPECFAIL {spec}"
+  else if diverge != "" then s!"DIVERGE {diverge}"
+  else "ok"
+
+def parseVRes (s : String) : Option (Option VMap × String) :=
+  if s.startsWith "err:" then some (none, s) else (parseVals s).map (fun m => (some m, showVals m))
+
+def doValidators (s : St) (top : Bool) (res : String) : St × String :=
+  match parseVRes res with
+  | none => (s, "DIVERGE bad-op")
+  | some (implVals, implShown) =>
+    let nodes := if top then s.nodes.filter (schedulable s.epoch) else s.nodes
+    let r := electValidators s.p s.staking s.shuffles nodes
+    let dv := if showVResult r == implShown then "" else s!"validators model={showVResult r} impl={implShown}"
+    let sp := match implVals with
+      | none => ""
+      | some m =>
+        -- the helper form is handed nodes that skipped the top-level filter: the spec applies to the whole-epoch form
+        if top then whyValidators s.inputs s.strict m else ""
+    let (mvals, mve) := match r with
+      | .ok m vis => (some m, vis.map (·.entity))
+      | _ => (none, [])
+    ({ s with pending := if top then mvals else s.pending, implVals := implVals.getD [], modelVE := mve }, verdict sp dv)
+
+def doCommittee (s : St) (rtId : Nat) (ve : Option (List Nat)) (had : Bool) (res : String) : St × String :=
+  match s.rts.find? (fun r => r.id == rtId) with
+  | none => (s, "DIVERGE bad-op unknown runtime")
+  | some rt =>
+    let top := ve.isNone
+    let nodes := if top then committeeNodes s.p s.epoch s.nodes else s.nodes
+    let mve := ve.getD s.modelVE
+    let r := electCommittee s.p s.staking s.shuffles s.epoch mve rt nodes
+    -- whole-epoch form: the harness sees the stored committee (`none`, `kept` = an older one, or this epoch's members)
+    let shown := if !top then showCResult r else match r with
+      | .unchanged => if had then "kept" else "none"
+      | .dropped => "none"
+      | .elected _ => showCResult r
+    let dv := if shown == res then "" else s!"committee {rtId} model={shown} impl={res}"
+    let sp :=
+      if !top then "" else
+      let ive := validatorEntitiesOf s.implVals
+      if res == "kept" then (if committeeResultOk s.inputs ive rt .unchanged then "" else "stale committee kept although the runtime is a compute runtime")
+      else if res == "none" then ""
+      else match parseMembers res with
+        | none => "unparsable members"
+        | some ms => match resolveMembers s.nodes ms with
+          | none => "committee member is not a registered node"
+          | some ms => whyCommittee s.inputs ive rt ms
+    (s, verdict sp dv)
+
+def step (s : St) (line : String) : St × String :=
+  match words line with
+  | [] => (s, "ok")
+  | ["reset"] => ({}, "ok")
+  | ["begin"] => ({ s with thr := [], accts := [], nodes := [], rts := [], perms := [], betas := [], pending := none, implVals := [], modelVE := [] }, "ok")
+  | ["strict", b] => match parseBool b with
+    | some b => ({ s with strict := b }, "ok")
+    | none => (s, "DIVERGE bad-op")
+  | ["params", a, b, c, d, e, f, g, h, i] =>
+    match parseInt a, parseInt b, parseInt c, parseBool d, e.toNat?, parseBool f, parseBool g, parseBool h, parseBool i with
+    | some a, some b, some c, some d, some e, some f, some g, some h, some i =>
+      ({ s with p := { minValidators := a, maxValidators := b, maxPerEntity := c, bypassStake := d, dist := e,
+                       useVRF := f, canElect := g, weakAlpha := h, fv261 := i } }, "ok")
+    | _, _, _, _, _, _, _, _, _ => (s, "DIVERGE bad-op")
+  | ["epoch", e] => match e.toNat? with
+    | some e => ({ s with epoch := e }, "ok")
+    | none => (s, "DIVERGE bad-op")
+  | ["thr", k, v] => match k.toNat?, v.toNat? with
+    | some k, some v => ({ s with thr := (k, v) :: s.thr }, "ok")
+    | _, _ => (s, "DIVERGE bad-op")
+  | ["acct", a, e, c] => match a.toNat?, e.toNat?, parseClaims c with
+    | some a, some e, some c => ({ s with accts := s.accts ++ [(a, { escrow := e, claims := c })] }, "ok")
+    | _, _, _ => (s, "DIVERGE bad-op")
+  | ["node", i, en, co, ro, ex, fr, el, pi, fa, rs] =>
+    match i.toNat?, en.toNat?, co.toNat?, ro.toNat?, ex.toNat?, fr.toNat?, el.toNat?, parseBool pi, parsePairs fa, parseNodeRts rs with
+    | some i, some en, some co, some ro, some ex, some fr, some el, some pi, some fa, some rs =>
+      ({ s with nodes := s.nodes ++ [{ id := i, entity := en, consensus := co, roles := ro, expiration := ex, freezeEnd := fr,
+                                       eligibleAfter := el, hasPi := pi, faults := fa, runtimes := rs }] }, "ok")
+    | _, _, _, _, _, _, _, _, _, _ => (s, "DIVERGE bad-op")
+  | ["rt", i, ic, gs, bs, th, deps, cw, cb] =>
+    match i.toNat?, parseBool ic, gs.toNat?, bs.toNat?, th.toNat?, parsePairs deps, parseCs cw, parseCs cb with
+    | some i, some ic, some gs, some bs, some th, some deps, some cw, some cb =>
+      ({ s with rts := s.rts ++ [{ id := i, isCompute := ic, groupSize := gs, backupSize := bs, teeHw := th,
+                                   deployments := deps, csWorker := cw, csBackup := cb }] }, "ok")
+    | _, _, _, _, _, _, _, _ => (s, "DIVERGE bad-op")
+  | ["perm", w, n, idx] => match n.toNat?, parseNats idx with
+    | some n, some idx => ({ s with perms := (w, n, idx) :: s.perms }, "ok")
+    | _, _ => (s, "DIVERGE bad-op")
+  | ["beta", w, n, k] => match n.toNat?, k.toNat? with
+    | some n, some k => ({ s with betas := (w, n, k) :: s.betas }, "ok")
+    | _, _ => (s, "DIVERGE bad-op")
+  | ["validators", res] => doValidators s true res
+  | ["hvalidators", res] => doValidators s false res
+  | ["committee", rt, had, res] => match rt.toNat?, parseBool had with
+    | some rt, some had => doCommittee s rt none had res
+    | _, _ => (s, "DIVERGE bad-op")
+  | ["hcommittee", rt, ve, res] => match rt.toNat?, parseNats ve with
+    | some rt, some ve => doCommittee s rt (some ve) false res
+    | _, _ => (s, "DIVERGE bad-op")
+  | ["endblock", us] => match parseUpdates us with
+    | none => (s, "DIVERGE bad-op")
+    | some us =>
+      match s.pending with
+      | none => (s, if us.isEmpty then "ok" else s!"DIVERGE endblock without pending validators returned {showUpdates us}")
+      | some pend =>
+        let d := diffValidators s.current pend
+        let dv := if showUpdates d == showUpdates us then "" else s!"updates model={showUpdates d} impl={showUpdates us}"
+        -- spec on the implementation: its updates applied to the tracked set give its own pending set
+        let sp := whyDiff s.current s.implVals us
+        ({ s with current := pend, pending := none }, verdict sp dv)
+  | ["hdiff", c, pnd, us] => match parseVals c, parseVals pnd, parseUpdates us with
+    | some c, some pnd, some us =>
+      let d := diffValidators c pnd
+      let dv := if showUpdates d == showUpdates us then "" else s!"updates model={showUpdates d} impl={showUpdates us}"
+      (s, verdict (whyDiff c pnd us) dv)
+    | _, _, _ => (s, "DIVERGE bad-op")
+  | ["hdedup", lim, ids] => match lim.toNat?, parseNats ids with
+    | some lim, some ids =>
+      let r := (dedupTrivial lim s.nodes).map (·.id)
+      (s, if r == ids then "ok" else s!"DIVERGE dedup model={showNats r} impl={showNats ids}")
+    | _, _ => (s, "DIVERGE bad-op")
+  | ["hsort", addrs] => match parseNats addrs with
+    | some addrs =>
+      let r := sortedEntities s.p s.staking (permShuffle (s.permFor "E")) (entitiesOf s.nodes)
+      (s, if r == addrs then "ok" else s!"DIVERGE sortByStake model={showNats r} impl={showNats addrs}")
+    | none => (s, "DIVERGE bad-op")
+  | ["hpower", stake, dist, res] => match stake.toNat?, dist.toNat? with
+    | some stake, some dist =>
+      let r := match votingPower stake dist with
+        | none => "err"
+        | some pw => toString pw
+      (s, if r == res then "ok" else s!"DIVERGE votingPower model={r} impl={res}")
+    | _, _ => (s, "DIVERGE bad-op")
+  | _ => (s, "DIVERGE bad-op")
+
+def main : IO Unit := loop step {}
+
 end OasisModel.Scheduler.Driver
